@@ -391,7 +391,7 @@ def execute(record: dict, rng: Optional[random.Random]) -> Outcome:
                 workers=dcfg["workers"],
                 transport=dcfg["transport"],
                 recompute=dcfg["recompute"],
-                pure=lambda c: True,
+                pure=lambda c, data, value: True,
                 stall=dcfg["stall"],
                 kernel=kernel,
                 tag=f"r{rep}",
